@@ -398,6 +398,11 @@ func ParseNameAddrPVal(h HdrT, buf []byte, offs int, pfrom *PFromBody) (int, Err
 				} else {
 					pfrom.state = fbNewPossibleParam
 				}
+			case ',':
+				if multipleValsOk(h) {
+					goto moreValues
+				}
+				return i, ErrHdrBadChar
 			default:
 				// no other char allowed after a param name token
 				// (the whitespace was already skipped in fb*ParamName)
@@ -491,6 +496,11 @@ func ParseNameAddrPVal(h HdrT, buf []byte, offs int, pfrom *PFromBody) (int, Err
 					pfrom.state = fbNewPossibleParam
 					setFromParamVal(buf, pfrom)
 				}
+			case ',':
+				if multipleValsOk(h) {
+					goto moreValues
+				}
+				return i, ErrHdrBadChar
 			default:
 				// no other char allowed after a param value token
 				return i, ErrHdrBadChar
@@ -533,6 +543,12 @@ moreValues: // end of current value (','), more present
 	retOkErr = ErrHdrMoreValues
 	n = i
 	crl = 1
+	// like for the end of header, i must point to the first WS char
+	// before the ',' (if any), so that the value will be trimmed
+	for i > int(pfrom.V.Offs) && (buf[i-1] == ' ' || buf[i-1] == '\t' ||
+		buf[i-1] == '\r' || buf[i-1] == '\n') {
+		i--
+	}
 endOfHdr:
 	// here i will point to first WS char (including CR & LF)
 	//      n will point to the line end (CR or LF)
